@@ -37,6 +37,9 @@ KNOWN = os.path.join(VERIF, "KNOWN_FINDINGS.jsonl")
 TLA_JAR = "/opt/veriftools/tla/tla2tools.jar"
 TLA_CP = TLA_JAR + ":/opt/veriftools/tla/CommunityModules-deps.jar"
 NCPU = os.cpu_count() or 4
+# Parallelism of one check. Several checks usually run side by side, so stay well below the core count.
+DEFAULT_TLC_WORKERS = int(os.environ.get("VERIF_TLC_WORKERS", "4"))
+DEFAULT_HARNESS_WORKERS = int(os.environ.get("VERIF_HARNESS_WORKERS", "6"))
 
 GOENV = {
     "GOFLAGS": "-mod=mod",
@@ -217,7 +220,7 @@ class Ctx:
         if dfs:
             jopts.append("-Dtlc2.tool.queue.IStateQueue=StateDeque")
         cmd = ["java"] + jopts + ["-cp", TLA_CP, "tlc2.TLC", "-metadir", meta,
-                                   "-workers", str(workers or min(8, NCPU)), "-config", cfg]
+                                   "-workers", str(workers or DEFAULT_TLC_WORKERS), "-config", cfg]
         if not deadlock:
             cmd += ["-deadlock"]
         if coverage:
@@ -309,7 +312,7 @@ class Ctx:
                     f.write(json.dumps(c, separators=(",", ":")) + "\n")
         opath = cpath + ".out"
         cmd = [binary, "run", adapter, "--cases", cpath, "--out", opath,
-               "--workers", str(workers or min(12, NCPU)), "--timeout-ms", str(timeout_ms),
+               "--workers", str(workers or DEFAULT_HARNESS_WORKERS), "--timeout-ms", str(timeout_ms),
                "--seed", str(self.seed)]
         if args:
             cmd += list(args)
